@@ -199,24 +199,24 @@ type Finding struct {
 
 // Report is the JSON the harness hands back to ./check.
 type Report struct {
-	Family        string                 `json:"family"`
-	Property      string                 `json:"property"`
-	Seed          int64                  `json:"seed"`
-	Tier          string                 `json:"tier"`
-	Cases         int                    `json:"cases"`
-	OpsRun        int                    `json:"ops_run"`
-	ModelLines    int                    `json:"model_lines"`
-	Distinct      int                    `json:"distinct_cases"`
-	Nontrivial    int                    `json:"distinct_nontrivial"`
-	Rule          string                 `json:"rule"`
-	Stats         map[string]interface{} `json:"stats"`
-	Samples       []interface{}          `json:"samples"`
-	Findings      []Finding              `json:"findings"`
-	CorpusReplayed int                   `json:"corpus_replayed"`
+	Family         string                 `json:"family"`
+	Property       string                 `json:"property"`
+	Seed           int64                  `json:"seed"`
+	Tier           string                 `json:"tier"`
+	Cases          int                    `json:"cases"`
+	OpsRun         int                    `json:"ops_run"`
+	ModelLines     int                    `json:"model_lines"`
+	Distinct       int                    `json:"distinct_cases"`
+	Nontrivial     int                    `json:"distinct_nontrivial"`
+	Rule           string                 `json:"rule"`
+	Stats          map[string]interface{} `json:"stats"`
+	Samples        []interface{}          `json:"samples"`
+	Findings       []Finding              `json:"findings"`
+	CorpusReplayed int                    `json:"corpus_replayed"`
 }
 
 type FamCtx struct {
-	Gen    func() Case // generator of the family, used by the failing-input search
+	Gen    func() Case          // generator of the family, used by the failing-input search
 	Sig    func(Outcome) string // signature of a finding, matched against known_findings.txt
 	Rand   *rand.Rand
 	Seed   int64
